@@ -36,6 +36,7 @@ DEFAULT_PROFILE = {
     "p_mutating_functions": 0.08,
     "p_no_options": 0.04,
     "p_soc_bias": 0.0,
+    "p_strict_dims": 0.0,
     "force_n": None,
     "p_narrow_box": 0.0,
     "maxfev_hi": 90,
@@ -279,7 +280,7 @@ def gen_nonlinear(rng, n, prof, twin_of=None):
     spec["lb"], spec["ub"] = lb, ub
     if rng.chance(0.15):
         spec["lb"], spec["ub"] = lb[0], ub[0]
-    spec["ret"] = rng.pick(["ndarray", "list", "tuple"] + (["scalar"] if m == 1 else []))
+    spec["ret"] = rng.pick(["ndarray", "ndarray_reused", "list", "tuple"] + (["scalar"] if m == 1 else []))
     if all(cs["fam"] == "step" for cs in comps) and not any(cs.get("noise") for cs in comps):
         spec["ret"] = rng.pick(["intlist", "intarray", "intscalar" if m == 1 else "intlist", "bool", "ndarray"])
     return spec
@@ -421,7 +422,8 @@ def gen_statement(rng, prof=None):
         if rng.chance(prof["p_noise"]):
             obj["noise"] = rng.pick([1e-12, 1e-8, 1e-5, 1e-2])
             obj["salt"] = rng.randrange(1000)
-        obj["ret"] = rng.wpick([(4, "float"), (2, "np64"), (1, "arr0"), (1, "arr1"), (1, "int")])
+        obj["ret"] = rng.wpick([(4, "float"), (2, "np64"), (1, "arr0"), (1, "arr1"), (1, "int"), (0.8, "arr1_reused"),
+                                (0.4, "arr0_reused")])
         obj["args"] = [rng.nice(-1, 1)] if rng.chance(0.2) else None
         if rng.chance(prof["p_mutating_functions"]):
             obj["mutates"] = True
@@ -477,6 +479,8 @@ def gen_statement(rng, prof=None):
         # a plain default call: options=None (or an empty dict)
         stmt["options"] = None if rng.chance(0.7) else {}
     stmt["constants"] = gen_constants(rng) if rng.chance(prof["p_constants"]) else {}
+    if rng.chance(prof.get("p_strict_dims", 0.0)):
+        stmt["strict_dims"] = True
     return stmt
 
 
